@@ -103,6 +103,9 @@ Section Facts.
   Notation replay_sets := (replay_sets get_ticks time_from_ticks).
   Notation replay_tg := (replay_tg get_ticks time_from_ticks).
   Notation replica_run := (replica_run get_ticks time_from_ticks).
+  Notation retick_rec := (retick_rec get_ticks time_from_ticks).
+  Notation retick_ws := (retick_ws get_ticks time_from_ticks).
+  Notation retick := (retick get_ticks time_from_ticks).
 
   (** * FIXED write sets *)
   Definition fixed_ok (st : store) (w : ws) : Prop :=
@@ -185,4 +188,286 @@ Section Facts.
     destruct H as [Ht Hr]. cbn [Repl.replica_run]. rewrite (replay_tg_fixed st tg Ht).
     apply IH. exact Hr.
   Qed.
+
+  (** * VARIABLE write sets: the replica stores re-ticked records *)
+  (** the replica's ticks depend on the master's only through the nanosecond part *)
+  Lemma retick_forgets_seconds epoch ipd idx ipd_b r1 r2 :
+    firstn (length r1 - 4) r1 = firstn (length r2 - 4) r2 ->
+    snd (time_from_ticks epoch ipd (rec_ticks r1)) = snd (time_from_ticks epoch ipd (rec_ticks r2)) ->
+    retick_rec epoch ipd idx ipd_b r1 = retick_rec epoch ipd idx ipd_b r2.
+  Proof. intros H1 H2. unfold Repl.retick_rec. rewrite H1, H2. reflexivity. Qed.
+
+  Definition nanos_in_interval (w : ws) : Prop :=
+    let epoch := sec_of (IndexToTime tz_utc (ws_idx w) (ws_tf w) (ws_year w)) in
+    Forall (fun rec => 0 <= wrap I32 (snd (time_from_ticks epoch (ipd_of (ws_tf w)) (rec_ticks rec))) < ws_tf w)
+           (chunks (length (ws_payload w)) (Z.to_nat (ws_vrl w)) (ws_payload w)).
+
+  Definition var_ok (st : store) (w : ws) : Prop :=
+    ws_rt w = RT_VARIABLE /\ tf_ok (ws_tf w)
+    /\ has_name nanos_name (ws_shapes w) = false
+    /\ ws_vrl w = rowsize (ws_shapes w) - 8 + 4 /\ 4 <= ws_vrl w
+    /\ Z.of_nat (length (ws_payload w)) mod ws_vrl w = 0 /\ ws_vrl w <= Z.of_nat (length (ws_payload w))
+    /\ derived_idx w /\ nanos_in_interval w /\ bucket_fits st w.
+
+  Lemma remove_nanos_app sh : has_name nanos_name sh = false -> remove_name nanos_name (sh ++ [nanos_shape]) = sh.
+  Proof.
+    unfold remove_name, has_name. intros H.
+    induction sh as [|s sh IH]; [reflexivity|]. cbn [app filter existsb] in H |- *.
+    apply orb_false_elim in H as [H1 H2]. rewrite H1. cbn [negb]. f_equal. apply IH. exact H2.
+  Qed.
+
+  (** WriteRecords on rows that all fall into the interval (idx, year): one command *)
+  Lemma group_rows_same ipd tf idx year rows : forall cur,
+    Forall (fun td => TimeToIndex tz_utc (fst td) tf = Ok idx /\ year_of tz_utc (fst td) = year) rows ->
+    group_rows get_ticks false ipd tf idx year cur rows
+    = Ok [mkwcmd (wc_year cur) (wc_idx cur)
+                 (wc_data cur ++ concat (map (fun td => snd td ++ le_bytes 4 (get_ticks (fst td) idx ipd)) rows))].
+  Proof.
+    induction rows as [|[t d] rows IH]; intros cur H.
+    - cbn. rewrite app_nil_r. destruct cur; reflexivity.
+    - inversion H as [|? ? Hhd Hr]; subst. destruct Hhd as [Hi Hy]. cbn [group_rows]. unfold z. cbn [fst snd] in Hi, Hy. rewrite Hi, Hy, !Z.eqb_refl.
+      cbn [andb]. rewrite (IH _ Hr). cbn [wc_year wc_idx wc_data map concat fst snd]. rewrite <- app_assoc. reflexivity.
+  Qed.
+
+  Lemma chunks_nonempty fuel n l : (0 < n)%nat -> (n <= length l)%nat -> (length l <= fuel)%nat -> chunks fuel n l <> [].
+  Proof.
+    intros Hn Hl Hf. destruct fuel as [|f]; [lia|]. cbn [chunks].
+    replace (length l <? n)%nat with false by (symmetry; apply Nat.ltb_ge; lia).
+    replace (n =? 0)%nat with false by (symmetry; apply Nat.eqb_neq; lia). cbn [orb]. discriminate.
+  Qed.
+
+  Lemma write_records_same ipd tf idx year rows :
+    rows <> [] ->
+    Forall (fun td => TimeToIndex tz_utc (fst td) tf = Ok idx /\ year_of tz_utc (fst td) = year) rows ->
+    write_records get_ticks false ipd tf rows
+    = Ok [mkwcmd year idx (concat (map (fun td => snd td ++ le_bytes 4 (get_ticks (fst td) idx ipd)) rows))].
+  Proof.
+    intros Hne H. destruct rows as [|[t d] rows]; [contradiction|].
+    inversion H as [|? ? Hhd Hr]; subst. destruct Hhd as [Hi Hy]. cbn [fst snd] in Hi, Hy.
+    unfold write_records, z. rewrite Hi, Hy. rewrite (group_rows_same _ _ _ _ _ _ Hr). reflexivity.
+  Qed.
+
+  Lemma combine_map {A B C} (f : A -> B) (g : A -> C) l : combine (map f l) (map g l) = map (fun x => (f x, g x)) l.
+  Proof. induction l; cbn; [reflexivity | f_equal; assumption]. Qed.
+
+  Lemma var_ws st w : var_ok st w ->
+    exists c, wtset_to_cs w = COk c /\ write_csm true st c = ROk (master_ws st (retick_ws w)).
+  Proof.
+    intros (Hrt & Htf & Hnn & Hvrl & H4 & Hmod & Hle & Hd & Hns & Hfit).
+    destruct (derived_interval w Htf Hd) as [Hsec Hint].
+    set (t0 := IndexToTime tz_utc (ws_idx w) (ws_tf w) (ws_year w)) in *.
+    set (epoch := sec_of t0) in *.
+    set (cks := chunks (length (ws_payload w)) (Z.to_nat (ws_vrl w)) (ws_payload w)) in *.
+    assert (Hcne : cks <> []) by (apply chunks_nonempty; lia).
+    eexists. split.
+    - unfold Repl.wtset_to_cs. destruct Htf as (Htf & _).
+      replace (ws_tf w =? 0) with false by (symmetry; apply Z.eqb_neq; lia).
+      rewrite Hrt. change (RT_VARIABLE =? RT_FIXED) with false. rewrite Z.eqb_refl.
+      replace (ws_vrl w =? 0) with false by (symmetry; apply Z.eqb_neq; lia).
+      rewrite <- Hvrl, Z.eqb_refl, Hmod. replace (4 <=? ws_vrl w) with true by (symmetry; apply Z.leb_le; lia).
+      cbn [andb Z.eqb]. reflexivity.
+    - destruct (ensure_find st w Hfit) as (v & Hfind & Hvrt & Hvtf & Hvsh).
+      unfold master_ws, Repl.retick_ws. cbn [ws_bucket ws_rt ws_tf ws_shapes ws_year ws_idx ws_payload].
+      fold t0. fold epoch. fold cks. rewrite Hrt in Hfind |- *.
+      unfold Repl.write_csm. cbn [cs_rows cs_bucket cs_shapes cs_tf]. unfold var_rows, z. fold t0. fold epoch. fold cks.
+      rewrite (remove_nanos_app _ Hnn).
+      set (mk := fun rec : list byte =>
+                   mkrow epoch (firstn (length rec - 4) rec)
+                         (Some (wrap I32 (snd (time_from_ticks epoch (ipd_of (ws_tf w)) (rec_ticks rec)))))).
+      assert (Hrows : map mk cks <> []) by (destruct cks; [contradiction | discriminate]).
+      assert (Tail : forall st1, st1 = ensure_bucket st (ws_bucket w) RT_VARIABLE (ws_tf w) (ws_shapes w) ->
+        match find_bucket st1 (ws_bucket w) with
+        | None => RPanic
+        | Some v =>
+            match schema_check (b_shapes v) (ws_shapes w) with
+            | 0 =>
+                if negb (b_rt v =? RT_FIXED) && negb (b_rt v =? RT_VARIABLE) then RUnmodelled
+                else if b_tf v =? 0 then RPanic
+                else
+                  match write_records get_ticks (b_rt v =? RT_FIXED) (utils_Day / b_tf v) (ws_tf w)
+                          (combine (map row_time (map mk cks)) (map (row_bytes (negb true)) (map mk cks))) with
+                  | Ok cmds =>
+                      ROk (fold_left (fun s c => apply_write s (ws_bucket w) (wc_year c) (wc_idx c) (wc_data c)) cmds st1)
+                  | _ => RPanic
+                  end
+            | 1 => RErr st1
+            | _ => RUnmodelled
+            end
+        end = ROk (apply_write st1 (ws_bucket w) (ws_year w) (ws_idx w)
+                     (concat (map (retick_rec epoch (ipd_of (ws_tf w)) (ws_idx w) (utils_Day / ws_tf w)) cks)))).
+      { intros st1 ->. rewrite Hfind, Hvsh, schema_check_refl, Hvrt, Hrt, Hvtf.
+        change (RT_VARIABLE =? RT_FIXED) with false. rewrite Z.eqb_refl. cbn [negb andb].
+        replace (ws_tf w =? 0) with false by (symmetry; apply Z.eqb_neq; destruct Htf; lia).
+        rewrite combine_map, map_map.
+        rewrite (write_records_same (utils_Day / ws_tf w) (ws_tf w) (ws_idx w) (ws_year w)).
+        - cbn [fold_left wc_year wc_idx wc_data]. f_equal. f_equal. f_equal. rewrite map_map.
+          apply map_ext. intros rec. unfold Repl.retick_rec, mk, row_time, row_bytes. cbn [fst snd r_epoch r_data r_nanos negb].
+          rewrite app_nil_r. reflexivity.
+        - destruct cks; [contradiction | discriminate].
+        - apply Forall_forall. intros td Hin. apply in_map_iff in Hin as (rec & <- & Hin).
+          unfold nanos_in_interval in Hns. fold t0 in Hns. fold epoch in Hns. fold cks in Hns.
+          rewrite Forall_forall in Hns. specialize (Hns rec Hin).
+          unfold mk, row_time. cbn [fst r_epoch r_nanos].
+          replace (epoch * NS) with t0 by (unfold epoch; symmetry; exact Hsec).
+          destruct (Hint _ Hns) as [Hy Hi]. split; assumption. }
+      destruct (find_bucket st (ws_bucket w)) as [b0|] eqn:Efb.
+      + assert (Ee : ensure_bucket st (ws_bucket w) RT_VARIABLE (ws_tf w) (ws_shapes w) = st)
+          by (unfold ensure_bucket; rewrite Efb; reflexivity).
+        rewrite Ee. pose proof (Tail st (eq_sym Ee)) as T. rewrite Efb in T. exact T.
+      + pose proof (Tail _ eq_refl) as T.
+        destruct (map mk cks) as [|r0 rr] eqn:Emk; [contradiction|]. exact T.
+  Qed.
+
+  Fixpoint tg_var_ok (st : store) (tg : list ws) : Prop :=
+    match tg with [] => True | w :: r => var_ok st w /\ tg_var_ok (master_ws st (retick_ws w)) r end.
+
+  Lemma replay_sets_var tg : forall st,
+    tg_var_ok st tg -> replay_sets true st tg = ROk (master_tg st (map retick_ws tg)).
+  Proof.
+    induction tg as [|w tg IH]; intros st H; [reflexivity|].
+    destruct H as [Hw Hr]. destruct (var_ws st w Hw) as (c & Ec & Ew).
+    cbn [Repl.replay_sets map]. rewrite Ec, Ew. apply IH. exact Hr.
+  Qed.
+
+  Lemma replay_tg_var st tg : tg_var_ok st tg -> replay_tg st tg = ROk (master_tg st (map retick_ws tg)).
+  Proof.
+    destruct tg as [|w tg]; [reflexivity|]. intros H. unfold Repl.replay_tg.
+    destruct H as [Hw Hr]. pose proof Hw as (Hrt & _). rewrite Hrt, Z.eqb_refl.
+    apply replay_sets_var. split; assumption.
+  Qed.
+
+  (** * Histories of homogeneous transaction groups (each one all FIXED or all VARIABLE) *)
+  Definition tg_ok (st : store) (tg : list ws) : Prop := tg_fixed_ok st tg \/ tg_var_ok st tg.
+
+  Lemma retick_fixed tg : forall st, tg_fixed_ok st tg -> map retick tg = tg.
+  Proof.
+    induction tg as [|w tg IH]; intros st H; [reflexivity|]. destruct H as [(Hrt & _) Hr].
+    cbn [map]. unfold Repl.retick at 1. rewrite Hrt. change (RT_FIXED =? RT_VARIABLE) with false. f_equal. apply (IH _ Hr).
+  Qed.
+
+  Lemma retick_var tg : forall st, tg_var_ok st tg -> map retick tg = map retick_ws tg.
+  Proof.
+    induction tg as [|w tg IH]; intros st H; [reflexivity|]. destruct H as [(Hrt & _) Hr].
+    cbn [map]. unfold Repl.retick at 1. rewrite Hrt, Z.eqb_refl. f_equal. apply (IH _ Hr).
+  Qed.
+
+  Lemma replay_tg_ok st tg : tg_ok st tg -> replay_tg st tg = ROk (master_tg st (map retick tg)).
+  Proof.
+    intros [H|H].
+    - rewrite (retick_fixed tg st H). apply replay_tg_fixed. exact H.
+    - rewrite (retick_var tg st H). apply replay_tg_var. exact H.
+  Qed.
+
+  Fixpoint run_ok (st : store) (tgs : list (list ws)) : Prop :=
+    match tgs with [] => True | tg :: r => tg_ok st tg /\ run_ok (master_tg st (map retick tg)) r end.
+
+  (** every history of homogeneous TGs: the replica replays all of it, and its store is exactly the store
+      of a master that received the same history with every VARIABLE record re-ticked *)
+  Theorem replica_characterised tgs : forall st,
+    run_ok st tgs -> replica_run st tgs = ROk (master_run st (map (map retick) tgs)).
+  Proof.
+    induction tgs as [|tg tgs IH]; intros st H; [reflexivity|].
+    destruct H as [Ht Hr]. cbn [Repl.replica_run map]. rewrite (replay_tg_ok st tg Ht).
+    unfold master_run. cbn [fold_left]. apply IH. exact Hr.
+  Qed.
+
+  (** * The boolean guards imply the hypotheses *)
+  Lemma tf_okb_spec tf : tf_okb tf = true -> tf_ok tf.
+  Proof.
+    unfold tf_okb, tf_ok. intros H. repeat (apply andb_prop in H as [H ?]).
+    rewrite Z.ltb_lt in *. rewrite !Z.eqb_eq in *. lia.
+  Qed.
+
+  Lemma idx_okb_spec w : idx_okb w = true -> derived_idx w.
+  Proof.
+    unfold idx_okb, derived_idx, z. intros H.
+    exists (IndexToTime tz_utc (ws_idx w) (ws_tf w) (ws_year w)).
+    destruct (TimeToIndex tz_utc _ (ws_tf w)) as [i| |]; try discriminate.
+    apply andb_prop in H as [H1 H2]. rewrite Z.eqb_eq in *. subst. split; [exact H2 | reflexivity].
+  Qed.
+
+  Lemma shapes_eqb_eq a : forall b, shapes_eqb a b = true -> a = b.
+  Proof.
+    induction a as [|[n t] a IH]; intros [|[n' t'] b] H; cbn in H; try discriminate; [reflexivity|].
+    apply andb_prop in H as [H1 H2]. unfold shape_eqb in H1. cbn in H1. apply andb_prop in H1 as [Hn Ht].
+    apply bytes_eqb_eq in Hn. apply Z.eqb_eq in Ht. subst. f_equal. apply IH. exact H2.
+  Qed.
+
+  Lemma bucket_fitsb_spec st w : bucket_fitsb st w = true -> bucket_fits st w.
+  Proof.
+    unfold bucket_fitsb, bucket_fits. destruct (find_bucket st (ws_bucket w)) as [v|]; [|trivial].
+    intros H. apply andb_prop in H as [H H3]. apply andb_prop in H as [H1 H2].
+    rewrite Z.eqb_eq in *. apply shapes_eqb_eq in H3. auto.
+  Qed.
+
+  Lemma fixed_okb_spec st w : fixed_okb st w = true -> fixed_ok st w.
+  Proof.
+    unfold fixed_okb, fixed_ok. intros H. repeat (apply andb_prop in H as [H ?]).
+    rewrite Z.eqb_eq in *.
+    split; [assumption|]. split; [apply tf_okb_spec; assumption|]. split; [apply negb_true_iff; assumption|].
+    split; [assumption|]. split; [apply idx_okb_spec; assumption | apply bucket_fitsb_spec; assumption].
+  Qed.
+
+  Lemma nanos_okb_spec w : nanos_okb time_from_ticks w = true -> nanos_in_interval w.
+  Proof.
+    unfold nanos_okb, nanos_in_interval, z. intros H. rewrite forallb_forall in H. apply Forall_forall.
+    intros rec Hin. specialize (H rec Hin). cbn zeta in H. apply andb_prop in H as [H1 H2].
+    rewrite Z.leb_le in H1. rewrite Z.ltb_lt in H2. lia.
+  Qed.
+
+  Lemma var_okb_spec st w : var_okb time_from_ticks st w = true -> var_ok st w.
+  Proof.
+    unfold var_okb, var_ok. intros H. repeat (apply andb_prop in H as [H ?]).
+    rewrite !Z.eqb_eq in *. rewrite !Z.leb_le in *.
+    split; [assumption|]. split; [apply tf_okb_spec; assumption|]. split; [apply negb_true_iff; assumption|].
+    split; [assumption|]. split; [assumption|]. split; [assumption|]. split; [assumption|].
+    split; [apply idx_okb_spec; assumption|]. split; [apply nanos_okb_spec; assumption | apply bucket_fitsb_spec; assumption].
+  Qed.
+
+  Lemma tg_fixed_okb_spec tg : forall st, tg_fixed_okb st tg = true -> tg_fixed_ok st tg.
+  Proof.
+    induction tg as [|w tg IH]; intros st H; [exact I|]. cbn in H. apply andb_prop in H as [H1 H2].
+    split; [apply fixed_okb_spec; exact H1 | apply IH; exact H2].
+  Qed.
+
+  Lemma tg_var_okb_spec tg : forall st, tg_var_okb get_ticks time_from_ticks st tg = true -> tg_var_ok st tg.
+  Proof.
+    induction tg as [|w tg IH]; intros st H; [exact I|]. cbn in H. apply andb_prop in H as [H1 H2].
+    split; [apply var_okb_spec; exact H1 | apply IH; exact H2].
+  Qed.
+
+  Lemma run_okb_spec tgs : forall st, run_okb get_ticks time_from_ticks st tgs = true -> run_ok st tgs.
+  Proof.
+    induction tgs as [|tg tgs IH]; intros st H; [exact I|]. cbn in H. apply andb_prop in H as [H1 H2].
+    split; [|apply IH; exact H2]. unfold tg_okb in H1. apply orb_prop in H1 as [H1|H1].
+    - left. apply tg_fixed_okb_spec. exact H1.
+    - right. apply tg_var_okb_spec. exact H1.
+  Qed.
+
+  (** a history of FIXED transaction groups only: re-ticking changes nothing *)
+  Lemma run_fixed_retick tgs : forall st, run_fixed_ok st tgs -> map (map retick) tgs = tgs.
+  Proof.
+    induction tgs as [|tg tgs IH]; intros st H; [reflexivity|]. destruct H as [H1 H2].
+    cbn [map]. rewrite (retick_fixed tg st H1). f_equal. apply (IH _ H2).
+  Qed.
 End Facts.
+
+(** FIXED write sets are left alone by re-ticking *)
+Lemma retick_all_fixed gt tft tgs :
+  forallb (forallb (fun w => ws_rt w =? RT_FIXED)) tgs = true -> map (map (retick gt tft)) tgs = tgs.
+Proof.
+  intros H. induction tgs as [|tg tgs IH]; [reflexivity|]. cbn in H. apply andb_prop in H as [H1 H2].
+  cbn [map]. f_equal; [|apply IH; exact H2]. clear IH H2.
+  induction tg as [|w tg IH]; [reflexivity|]. cbn in H1. apply andb_prop in H1 as [Hw Hr].
+  cbn [map]. f_equal; [|apply IH; exact Hr]. unfold retick. apply Z.eqb_eq in Hw. rewrite Hw. reflexivity.
+Qed.
+
+Theorem replica_guarded gt tft tgs st :
+  run_okb gt tft st tgs = true ->
+  replica_run gt tft st tgs = ROk (master_run st (map (map (retick gt tft)) tgs)).
+Proof. intros H. apply replica_characterised. apply run_okb_spec. exact H. Qed.
+
+Theorem replica_fixed_guarded gt tft tgs st :
+  run_okb gt tft st tgs = true -> forallb (forallb (fun w => ws_rt w =? RT_FIXED)) tgs = true ->
+  replica_run gt tft st tgs = ROk (master_run st tgs).
+Proof. intros H F. rewrite (replica_guarded gt tft tgs st H), (retick_all_fixed gt tft tgs F). reflexivity. Qed.
